@@ -220,7 +220,8 @@ class Report(object):
         self.distinct = set()
         self.samples = []
         self.dist = {}
-        self.failures = []              # dict(signature, what, replay(dict))
+        self.failures = []              # dict(signature, what, replay(dict)); at most 3 per signature
+        self.failure_counts = {}
         self.corr_checked = 0
         self.corr_disagreements = []
         self.notes = []
@@ -248,7 +249,9 @@ class Report(object):
             if re.fullmatch(k['signature'], signature):
                 self.known_seen.setdefault(k['signature'], (what, replay))
                 return
-        if len(self.failures) < 50:
+        n = self.failure_counts.get(signature, 0)
+        self.failure_counts[signature] = n + 1
+        if n < 3 and len(self.failures) < 200:
             self.failures.append({'signature': signature, 'what': what, 'replay': replay})
 
     def disagree(self, op, case, model, impl):
@@ -267,9 +270,10 @@ class Report(object):
         violations = 0
         if self.failures:
             f = self.failures[0]
-            path = self._write_replay(f['signature'], {'kind': 'failing-input', 'failures': self.failures[:10]})
+            path = self._write_replay(f['signature'], {'kind': 'failing-input', 'failures': self.failures[:60],
+                                                       'failure_counts': self.failure_counts})
             lines.append('VIOLATION property=%s replay=%s' % (self.prop, path))
-            violations = len(self.failures)
+            violations = sum(self.failure_counts.values())
             rc = 1
         elif self.proof_broken or self.corr_disagreements:
             what = {'kind': 'no-failing-input-found',
